@@ -112,7 +112,10 @@ def eval_int(case):
         for devs in [()] + [((c, l),) for c in range(nco) for l in (0, 2, 3)]:
             d = inter.apply_devs(ent, inter.base_data(ent, base), devs)
             nkey = 'int/{}/cut{};base={};dev={}'.format(case['crystal'], case['icut'], base, inter.dev_name(ent, devs))
-            D0 = inter.D(ent, d); nst += 1
+            try:
+                D0 = inter.D(ent, d); nst += 1
+            except Exception as e:
+                viols.append({'oracle': 'exception', 'key': nkey, 'detail': repr(e)}); continue
             for ci in js:
                 n = coords[ci][1]
                 for delta in DELTAS:
